@@ -23,7 +23,10 @@ def handle_cell(cell: Cell, titles: Dict[str, int]):
 
     if isinstance(cell.row, str):
         if cell.row:
-            cell.row = int(cell.row) - 1
+            try:
+                cell.row = int(cell.row) - 1
+            except ValueError:
+                raise E2PyclCellException('The row number is too large')
             if cell.row < 0:
                 raise E2PyclCellException('Row numbers start at 1')
         else:
